@@ -15,8 +15,16 @@ for pre-existing and created paths alike, and arguments are spelled the way real
 and decides whether the operating system resolves it like its normal form.  `_is_isolated` is probed directly on
 sibling names before exit and compared with the model's string walk (`isIsolatedStr`).
 
-Oracle (independent of the model): the tree after exit equals the tree before entry, path by path and
-content by content — exactly the property.
+Working directory: a case is one PROCESS.  Its operations run inside a `FilesystemIsolation`; `{"reenter": {}}`
+exits it and enters a new one in the same process (pynguin runs one isolation per executed test case),
+`{"chdir": …}` is `os.chdir` by the code under test (not patched, not undone by the isolation).  Arguments spelled
+relative (`rel`/`relq`, bare `f` or `./f`, `../x`) are resolved against the working directory of THE CALL by the
+operating system — and by the model (`Model/FsCwd.lean`: `resolve`); `_abspath` is probed on every spelled
+argument and compared with that resolution.  The module's `lru_cache`s are emptied per case only (a case = a fresh
+process), never between the isolations of a case; the process's working directory is restored after each case.
+
+Oracle (independent of the model): for EVERY isolation of the case the tree after its exit equals the tree before
+its entry, path by path and content by content — exactly the property.
 
 Safety: every path handed to the implementation lies inside the sandbox; before `__exit__` runs, any
 recorded path outside the sandbox is withdrawn (and reported), so the real cleanup can only touch the
@@ -99,12 +107,37 @@ FAMILIES = [
 ]
 
 
-def spelled(root: str, comps: list, segs, rel: bool) -> str:
-    """The path string handed to the code under test for the argument `comps` (components below root)."""
+def spelled(root: str, comps: list, segs, rel: bool, bare: bool = False) -> str:
+    """The path string handed to the code under test: `segs` (default: `comps`) below the sandbox root, or —
+    `rel` — relative to the current working directory (`./a/b`, or `a/b` when `bare`)."""
     segs = comps if segs is None else segs
     tail = "".join("/" + s for s in segs)
-    # a relative spelling always starts with "./": a leading empty segment must never yield an absolute path
-    return ("." + tail) if rel else (root + tail)
+    if not rel:
+        return root + tail
+    # a leading empty segment must never yield an absolute path: such a spelling always starts with "./"
+    if bare and segs and segs[0] != "":
+        return tail[1:]
+    return "." + tail
+
+
+def rel_segs(cwd: list, p: list):
+    """segments spelling `p` relative to the directory `cwd` (at most two `..`), or None"""
+    n = 0
+    while n < len(cwd) and n < len(p) and cwd[n] == p[n]:
+        n += 1
+    ups = len(cwd) - n
+    if ups > 2:
+        return None
+    return [".."] * ups + list(p[n:])
+
+
+def below(root: str, path: str):
+    """components of `path` below `root`, or None when it is not at or below root"""
+    if path == root:
+        return []
+    if path.startswith(root + os.sep):
+        return path[len(root) + 1:].split(os.sep)
+    return None
 
 
 def spelling_kinds(segs, rel) -> list:
@@ -176,21 +209,24 @@ def snapshot(root: str) -> list:
 class C29(PropertyCheck):
     prop_id = "C29"
     prop_modules = ["PynguinModel.Props.C29"]
-    extra_modules = ["PynguinModel.Model.FsIsolation", "PynguinModel.Model.FsPathStr"]
+    extra_modules = ["PynguinModel.Model.FsIsolation", "PynguinModel.Model.FsPathStr", "PynguinModel.Model.FsCwd"]
     driver = "Driver/C29.lean"
     n_quick = 1500
     n_thorough = 30000
     n_search = 6000
-    rule = ("a case is a pre-existing tree + a sequence of 3–12 operations with spelled arguments; non-trivial = "
-            "distinct sequence of (operation kind, outcome, did it name a pre-existing path, kinds of spelling) with at "
-            "least one successful operation")
+    rule = ("a case is a pre-existing tree + one process: a sequence of 3–14 operations with spelled arguments, in 45 % "
+            "of the cases with os.chdir calls, cwd-relative names and 1–4 consecutive isolations; non-trivial = "
+            "distinct sequence of (operation kind, outcome, did it denote a pre-existing path, kinds of spelling) with "
+            "at least one successful operation")
     assumptions = [
         "paths are absolute, normalised and inside the sandbox; no symlinks, hard links, permissions, special files",
         "path components are real file names (non-empty, no separator, not '.'/'..'); arguments may be spelled with "
         "'.', '..', doubled and trailing separators or relative to the working directory as long as the operating "
         "system resolves the spelling like os.path.normpath (otherwise the case is judged by the oracle only)",
-        "single-threaded code under test; the process's working directory is the sandbox root and does not change "
-        "(the process-wide abspath memo of fs_isolation is emptied per case, as in a fresh process)",
+        "single-threaded code under test; a case is one process (lru_caches of fs_isolation emptied at its start) "
+        "that starts in the sandbox root, may chdir inside the sandbox and runs its isolations one after the other; "
+        "an operation that moves/deletes the working directory itself, a relative spelling in a deleted working "
+        "directory or one that leaves the sandbox (never executed) make the case 'unmodelled' (oracle only)",
         "os.open descriptors are used for one write and closed; dir_fd-relative calls of the code under test, "
         "Path.unlink(missing_ok=True), rmtree(ignore_errors=True), copytree (also as the cross-device fallback of "
         "shutil.move) are outside the model",
@@ -234,6 +270,33 @@ class C29(PropertyCheck):
                 if p not in dirs and p not in files:
                     files.append(p)
                     init.append([p, {"file": {"content": content()}}])
+        # "process" cases: the code under test changes the working directory, names files relative to it, and
+        # several isolations run one after the other; the same few names exist / are created in several directories
+        proc = rng.random() < 0.45
+        hot = []
+        if proc:
+            self.count("process:chdir-and-consecutive-isolations")
+            while len(dirs) < 3:
+                p = [rng.choice(dnames)]
+                if p not in dirs and p not in files:
+                    dirs.append(p)
+                    init.append([p, "dir"])
+                elif rng.random() < 0.2:
+                    break
+            hot = rng.sample(sorted(set(fnames) | set(nnames)), rng.choice([1, 2]))
+            for d in list(dirs):
+                for h in hot:
+                    p = d + [h]
+                    if rng.random() < 0.35 and p not in dirs and p not in files and len(p) <= 3:
+                        if rng.random() < 0.8:
+                            files.append(p)
+                            init.append([p, {"file": {"content": content()}}])
+                        else:
+                            dirs.append(p)
+                            init.append([p, "dir"])
+        else:
+            self.count("process:single-isolation-fixed-cwd")
+        cwd = [[]]            # the generator's guess of the working directory (components below root)
         # a rough guess of what exists and what the isolation regards as created, to steer the choice of
         # arguments (the guess need not be right: every outcome is compared with the model anyway)
         made_files, made_dirs = [], []
@@ -256,6 +319,8 @@ class C29(PropertyCheck):
 
         def target():
             """a path to write to / create: often pre-existing, often one made earlier, often new"""
+            if proc and rng.random() < 0.5 and len(cwd[0]) < 3:     # one of the hot names in the working directory
+                return list(cwd[0]) + [rng.choice(hot)]
             r = rng.random()
             if r < 0.30:
                 return list(rng.choice(dirs + files))
@@ -310,9 +375,37 @@ class C29(PropertyCheck):
                 return p + [""]
             return None
 
+        def rel_spell(p):
+            """a spelling of p relative to the (guessed) working directory, or None"""
+            segs = rel_segs(cwd[0], p)
+            if not segs or segs[-1] == "..":              # the working directory or an ancestor: no name to spell
+                return None
+            if rng.random() < 0.15 and len(segs) > 1:      # "." or an empty segment inside
+                i = rng.randrange(1, len(segs))
+                segs = segs[:i] + [rng.choice([".", ""])] + segs[i:]
+            return segs
+
         def spell_op(op):
             (_, v), = op.items()
             e = {}
+            if proc:
+                # every argument on its own: relative to the working directory (mostly bare: `f`, `sub/f`, `../f`)
+                # or absolute; the same relative string is thereby used under several working directories
+                for f, sf, rf in (("p", "sp", "rel"), ("q", "sq", "relq")):
+                    if f not in v:
+                        continue
+                    segs = rel_spell(v[f]) if rng.random() < 0.6 else None
+                    if segs is not None:
+                        e[sf], e[rf] = segs, True
+                    else:
+                        sp = respell(v[f])
+                        if sp is not None:
+                            e[sf] = sp
+                        if f == "q" and e.get("rel"):
+                            e["relq"] = False
+                if (e.get("rel") or e.get("relq")) and rng.random() < 0.7:
+                    e["bare"] = True
+                return e
             sp = respell(v["p"])
             if sp is not None:
                 e["sp"] = sp
@@ -324,8 +417,48 @@ class C29(PropertyCheck):
                 e["rel"] = True
             return e
 
+        def gen_chdir():
+            r = rng.random()
+            others = [d for d in dirs if d != cwd[0]]
+            if r < 0.65 and others:
+                p = list(rng.choice(others))
+            elif r < 0.90 and made_dirs:
+                p = list(rng.choice(made_dirs))
+            elif r < 0.95:
+                p = list(rng.choice(dirs))
+            else:
+                p = target()                               # a file, a missing path: the call fails
+            e = {}
+            segs = rel_segs(cwd[0], p)
+            if segs is not None and rng.random() < 0.45:
+                e = {"sp": segs, "rel": True}
+                if rng.random() < 0.6:
+                    e["bare"] = True
+            if p in dirs or p in made_dirs:
+                cwd[0] = p
+            return {"chdir": {"p": p}}, e
+
         ops, spell = [], []
-        for _ in range(rng.randrange(3, 13)):
+        for _ in range(rng.randrange(5, 15) if proc else rng.randrange(3, 13)):
+            if proc:
+                r = rng.random()
+                if r < 0.15:
+                    op, e = gen_chdir()
+                    ops.append(op)
+                    spell.append(e)
+                    continue
+                if r < 0.21 and ops:
+                    # the next isolation of the process; mostly the working directory is a pre-existing directory
+                    # by then (a created one is removed by the exit: `os.getcwd()` raises from then on)
+                    if cwd[0] not in dirs and rng.random() < 0.85:
+                        cwd[0] = list(rng.choice(dirs))
+                        ops.append({"chdir": {"p": cwd[0]}})
+                        spell.append({})
+                    ops.append({"reenter": {}})
+                    spell.append({})
+                    made_files.clear()
+                    made_dirs.clear()
+                    continue
             k = rng.random()
             if k < 0.17:
                 p = target()
@@ -416,26 +549,52 @@ class C29(PropertyCheck):
 
     # ---- the real implementation --------------------------------------------------------------
     @staticmethod
-    def _do(op: dict, root: str, sp: dict | None = None) -> None:
-        (k, v), = op.items()
+    def _prepare(op: dict, root: str, sp: dict | None):
+        """The strings handed to the code under test for the path arguments of `op`, and the paths (components
+        below root) they denote in the current working directory; None when a string does not denote a path
+        inside the sandbox right now (then the operation is NOT executed)."""
+        (_, v), = op.items()
         sp = sp or {}
         rel = bool(sp.get("rel"))
-        strings = {}
-        for f, sf in (("p", "sp"), ("q", "sq")):
-            if f in v:
-                s_ = spelled(root, v[f], sp.get(sf), rel)
+        relq = bool(sp.get("relq", rel))
+        bare = bool(sp.get("bare"))
+        try:
+            cwd = os.getcwd()
+        except OSError:                     # the working directory was deleted (by an exit cleanup)
+            cwd = None
+        if cwd is not None and below(root, cwd) is None:
+            raise BadSpelling(f"the working directory {cwd!r} left the sandbox")
+        strings, args = {}, []
+        for f, sf, r in (("p", "sp", rel), ("q", "sq", relq)):
+            if f not in v:
+                continue
+            s_ = spelled(root, v[f], sp.get(sf), r, bare)
+            if r:
+                if cwd is None:
+                    return None
+                den = os.path.normpath(os.path.join(cwd, s_))
+            else:
+                den = os.path.normpath(s_)
                 want = os.path.join(root, *v[f]) if v[f] else root
-                # safety + well-formedness of the case: the spelling denotes the argument and stays in the sandbox
-                if os.path.normpath(os.path.join(root, s_)) != want or os.getcwd() != root:
+                if den != want:             # well-formedness of the case: an absolute spelling denotes its argument
                     raise BadSpelling(f"spelling {s_!r} does not denote {want!r}")
-                strings[tuple(v[f])] = s_
+            comps = below(root, den)
+            if comps is None:               # safety: never leave the sandbox
+                return None
+            strings[f] = s_
+            args.append(comps)
+        return strings, args
 
-        def P(c):
-            return strings[tuple(c)]
+    @staticmethod
+    def _do(op: dict, strings: dict) -> None:
+        (k, v), = op.items()
+
+        def P(f):
+            return strings[f]
 
         if k == "fopen":
             mode, d = MODES[v["mode"]], text(v["data"])
-            path = P(v["p"])
+            path = P("p")
             if v["api"] == "builtin":
                 f = builtins.open(path, mode)  # noqa: SIM115
             elif v["api"] == "io":
@@ -450,24 +609,24 @@ class C29(PropertyCheck):
             finally:
                 f.close()
         elif k == "osopen":
-            fd = os.open(P(v["p"]), FLAGS[v["flags"]], 0o644)
+            fd = os.open(P("p"), FLAGS[v["flags"]], 0o644)
             try:
                 if v["flags"] in FLAG_WRITES:
                     os.write(fd, text(v["data"]).encode())
             finally:
                 os.close(fd)
         elif k == "writeText":
-            Path(P(v["p"])).write_text(text(v["data"]))
+            Path(P("p")).write_text(text(v["data"]))
         elif k == "touch":
-            Path(P(v["p"])).touch(exist_ok=v["existOk"])
+            Path(P("p")).touch(exist_ok=v["existOk"])
         elif k == "mkdir":
-            os.mkdir(P(v["p"]))
+            os.mkdir(P("p"))
         elif k == "makedirs":
-            os.makedirs(P(v["p"]), exist_ok=v["existOk"])
+            os.makedirs(P("p"), exist_ok=v["existOk"])
         elif k == "pmkdir":
-            Path(P(v["p"])).mkdir(parents=v["parents"], exist_ok=v["existOk"])
+            Path(P("p")).mkdir(parents=v["parents"], exist_ok=v["existOk"])
         elif k == "rename":
-            a, p, q = v["api"], P(v["p"]), P(v["q"])
+            a, p, q = v["api"], P("p"), P("q")
             if a == "osRename":
                 os.rename(p, q)
             elif a == "osReplace":
@@ -477,11 +636,11 @@ class C29(PropertyCheck):
             else:
                 Path(p).replace(Path(q))
         elif k == "copy":
-            getattr(shutil, v["api"])(P(v["p"]), P(v["q"]))
+            getattr(shutil, v["api"])(P("p"), P("q"))
         elif k == "move":
-            shutil.move(P(v["p"]), P(v["q"]))
+            shutil.move(P("p"), P("q"))
         elif k == "remove":
-            a, p = v["api"], P(v["p"])
+            a, p = v["api"], P("p")
             if a == "osRemove":
                 os.remove(p)
             elif a == "osUnlink":
@@ -490,11 +649,13 @@ class C29(PropertyCheck):
                 Path(p).unlink()
         elif k == "rmdir":
             if v["api"] == "os":
-                os.rmdir(P(v["p"]))
+                os.rmdir(P("p"))
             else:
-                Path(P(v["p"])).rmdir()
+                Path(P("p")).rmdir()
         elif k == "rmtree":
-            shutil.rmtree(P(v["p"]))
+            shutil.rmtree(P("p"))
+        elif k == "chdir":
+            os.chdir(P("p"))
         else:
             raise ValueError(f"unknown op {k}")
 
@@ -505,19 +666,44 @@ class C29(PropertyCheck):
         from pynguin.utils.fs_isolation import FilesystemIsolation
 
         logging.getLogger("pynguin.utils.fs_isolation").setLevel(logging.CRITICAL)  # cleanup warnings → stderr
-        # `_abspath` memoises abspath(normpath(str)) per STRING in a process-wide lru_cache; a relative spelling
-        # is therefore resolved against the working directory of its FIRST use in the process.  Every case has
-        # its own sandbox (= working directory), an execution never changes it (assumption), so each case
-        # starts with an empty memo like a fresh process would (see design note, "Observation").
+        # A case is one PROCESS (several isolations, `chdir`s): it starts with empty memos (`lru_cache`s of the
+        # module, e.g. `_normalize_path_cached`) like a fresh process; they are NOT emptied between its isolations.
         import pynguin.utils.fs_isolation as fsi
-        cache = getattr(fsi, "_normalize_path_cached", None)
-        if hasattr(cache, "cache_clear"):
-            cache.cache_clear()
+        for obj in list(vars(fsi).values()):
+            if callable(obj) and hasattr(obj, "cache_clear") and getattr(obj, "__module__", None) == fsi.__name__:
+                obj.cache_clear()
         sandbox = os.path.realpath(tempfile.mkdtemp(prefix="verif-c29-"))
         root = os.path.join(sandbox, "root")
         old_flag = config.configuration.filesystem_isolation
         old_cwd = os.getcwd()
         out: dict = {}
+        res, args, abss, cwds, rounds, escaped = [], [], [], [], [], []
+
+        def withdraw(iso):
+            # safety net: the real cleanup may only ever touch the sandbox tree
+            for c in list(iso._created):
+                if below(root, c) is None:
+                    iso._created.discard(c)
+                    escaped.append(c)
+
+        def close_round(iso):
+            withdraw(iso)
+            rd = {"created": sorted(below(root, c) for c in iso._created), "pre": snapshot(root)}
+            probe = getattr(iso, "_is_isolated", None)
+            rd["iso"] = ("absent" if probe is None else
+                         [bool(probe(os.path.join(root, *p) if p else root)) for p in case.get("probes", [])])
+            iso.__exit__(None, None, None)
+            rd["post"] = snapshot(root)
+            return rd
+
+        def cwd_now():
+            try:
+                c = os.getcwd()
+            except OSError:
+                return None
+            b = below(root, c)
+            return {"raw": c} if b is None else b
+
         try:
             _MKDIR(root)
             for comps, node in case["init"]:
@@ -531,41 +717,61 @@ class C29(PropertyCheck):
                         f.write(text(node["file"]["content"]))
             out["before"] = snapshot(root)
             config.configuration.filesystem_isolation = True
-            res, escaped = [], []
             os.chdir(root)
+            iso = None
             try:
-                with FilesystemIsolation() as iso:
+                iso = FilesystemIsolation()
+                iso.__enter__()
+                spell = case.get("spell") or [None] * len(case["ops"])
+                for op, sp in zip(case["ops"], spell):
+                    k = next(iter(op))
+                    if k == "reenter":
+                        cur, iso = iso, None
+                        rounds.append(close_round(cur))
+                        iso = FilesystemIsolation()
+                        iso.__enter__()
+                        res.append("ok")
+                        args.append([])
+                        abss.append(None)
+                        cwds.append(cwd_now())
+                        continue
+                    prep = self._prepare(op, root, sp)
+                    if prep is None:
+                        res.append("outside")
+                        args.append(None)
+                        abss.append(None)
+                        cwds.append(cwd_now())
+                        continue
+                    strings, den = prep
                     try:
-                        spell = case.get("spell") or [None] * len(case["ops"])
-                        for op, sp in zip(case["ops"], spell):
-                            try:
-                                self._do(op, root, sp)
-                                res.append("ok")
-                            except PermissionError as e:
-                                res.append("refused" if str(e).startswith("Attempted to") else "failed")
-                            except BadSpelling:
-                                raise
-                            except Exception:  # noqa: BLE001
-                                res.append("failed")
-                    finally:
-                        # safety net: the real cleanup may only ever touch the sandbox tree
-                        for c in list(iso._created):
-                            if not (c == root or c.startswith(root + os.sep)):
-                                iso._created.discard(c)
-                                escaped.append(c)
-                    created = []
-                    for c in iso._created:
-                        rel = os.path.relpath(c, root)
-                        created.append([] if rel == "." else rel.split(os.sep))
-                    out["created"] = sorted(created)
-                    out["pre"] = snapshot(root)
-                    probe = getattr(iso, "_is_isolated", None)
-                    out["iso"] = ("absent" if probe is None else
-                                  [bool(probe(os.path.join(root, *p) if p else root)) for p in case.get("probes", [])])
+                        self._do(op, strings)
+                        res.append("ok")
+                    except PermissionError as e:
+                        res.append("refused" if str(e).startswith("Attempted to") else "failed")
+                    except Exception:  # noqa: BLE001
+                        res.append("failed")
+                    args.append(den)
+                    # `_abspath` of every string just used, in the working directory it was used in
+                    ab = getattr(iso, "_abspath", None)
+                    if k == "chdir" or ab is None:
+                        abss.append(None)
+                    else:
+                        got = []
+                        for f in ("p", "q"):
+                            if f in strings:
+                                a_ = ab(strings[f])
+                                b_ = below(root, a_) if isinstance(a_, str) else None
+                                got.append({"raw": str(a_)} if b_ is None else b_)
+                        abss.append(got)
+                    cwds.append(cwd_now())
+                cur, iso = iso, None
+                rounds.append(close_round(cur))
             finally:
+                if iso is not None:           # an adapter error: undo the patches, never clean outside the sandbox
+                    withdraw(iso)
+                    iso.__exit__(None, None, None)
                 os.chdir(old_cwd)
-            out["res"] = res
-            out["escaped"] = sorted(escaped)
+            out.update(res=res, args=args, abs=abss, cwds=cwds, rounds=rounds, escaped=sorted(escaped))
             out["post"] = snapshot(root)
         finally:
             config.configuration.filesystem_isolation = old_flag
@@ -576,68 +782,101 @@ class C29(PropertyCheck):
     def parse_model(self, line: str):
         import json
         mo = json.loads(line)
-        if "res" in mo:
-            mo["created"] = sorted({tuple(c) for c in mo["created"]})
-            mo["created"] = [list(c) for c in mo["created"]]
-            mo["pre"] = sorted(mo["pre"], key=lambda e: e[0])
-            mo["post"] = sorted(mo["post"], key=lambda e: e[0])
+        for rd in mo.get("rounds", []):
+            rd["created"] = [list(c) for c in sorted({tuple(c) for c in rd["created"]})]
+            rd["pre"] = sorted(rd["pre"], key=lambda e: e[0])
+            rd["post"] = sorted(rd["post"], key=lambda e: e[0])
         return mo
 
     def compare(self, case, impl_out, model_out) -> bool:
         if "res" not in model_out:
             return False
         if "unmodelled" in model_out["res"]:
-            # shutil.move fell back to copytree, or a spelling the operating system does not resolve like its
-            # normal form (a detour through a missing directory, `file/`): only the oracle judges the case
+            # shutil.move fell back to copytree, a spelling the operating system does not resolve like its normal
+            # form (a detour through a missing directory, `file/`), a spelling that leaves the sandbox or is
+            # relative to a deleted working directory, an operation that moves or deletes the working directory:
+            # only the oracle judges the case
             i = model_out["res"].index("unmodelled")
-            sp = (case.get("spell") or [{}] * len(case["ops"]))[i]
-            self.count("unmodelled:spelling-not-resolved-like-normal-form" if ("sp" in sp or "sq" in sp)
-                       and "move" not in case["ops"][i] else "unmodelled:move-copytree-fallback-or-spelling")
+            sp = (case.get("spell") or [{}] * len(case["ops"]))[i] or {}
+            if impl_out["res"][i] == "outside":
+                self.count("unmodelled:spelling-outside-sandbox-or-deleted-cwd")
+            elif ("sp" in sp or "sq" in sp) and "move" not in case["ops"][i]:
+                self.count("unmodelled:spelling-not-resolved-like-normal-form-or-cwd-clobbered")
+            else:
+                self.count("unmodelled:move-copytree-fallback-or-spelling")
             return True
-        return (impl_out["res"] == model_out["res"] and impl_out["created"] == model_out["created"]
-                and impl_out["iso"] == model_out.get("iso")
-                and impl_out["pre"] == model_out["pre"] and impl_out["post"] == model_out["post"]
-                and not impl_out["escaped"])
+        # `_abspath` of every spelled argument is the path the operating system (and the model) resolves it to
+        abs_ok = all(a is None or a == g for a, g in zip(impl_out["abs"], impl_out["args"]))
+        return (impl_out["res"] == model_out["res"] and impl_out["args"] == model_out.get("args")
+                and impl_out["cwds"] == model_out.get("cwds") and impl_out["rounds"] == model_out.get("rounds")
+                and abs_ok and not impl_out["escaped"])
 
     # ---- the property itself ------------------------------------------------------------------
     def model_line(self, case):
         return None if "scenario" in case else jdump(case)
 
+    @staticmethod
+    def round_spans(case) -> list:
+        """[start, end) operation indices of every isolation of the case"""
+        spans, start = [], 0
+        for i, op in enumerate(case["ops"]):
+            if "reenter" in op:
+                spans.append((start, i))
+                start = i + 1
+        spans.append((start, len(case["ops"])))
+        return spans
+
     def oracle(self, case, impl_out):
         if "scenario" in case:
             return self.extra_checks()
-        before = {tuple(p): n for p, n in impl_out["before"]}
-        after = {tuple(p): n for p, n in impl_out["post"]}
         fails = []
-
-        def culprit(path):
-            """kind of the last successful operation naming the path or one of its ancestors"""
-            best = "none"
-            for op, r in zip(case["ops"], impl_out["res"]):
-                if r == "ok" and any(tuple(q) == path[:len(q)] for q in op_paths(op)):
-                    best = op_kind(op)
-            return best
-
         seen = set()
-        for p, n in before.items():
-            if p not in after:
-                cls = "preexisting-deleted"
-            elif after[p] != n:
-                cls = "preexisting-modified"
-            else:
-                continue
-            sig = {"class": cls, "via": culprit(p)}
-            if jdump(sig) not in seen:
-                seen.add(jdump(sig))
-                fails.append(Failure(sig, f"{cls}: {'/'.join(p) or '<root>'} was {jdump(n)} before the isolated "
-                                          f"execution and is {jdump(after.get(p))} afterwards (via {sig['via']})"))
-        for p in after:
-            if p not in before:
-                sig = {"class": "created-left-behind", "via": culprit(p)}
+        chdirs = [i for i, (op, r) in enumerate(zip(case["ops"], impl_out["res"])) if "chdir" in op and r == "ok"]
+        for k, ((lo, hi), rd) in enumerate(zip(self.round_spans(case), impl_out["rounds"])):
+            # every isolation on its own: the tree before ITS entry against the tree after ITS exit
+            before = {tuple(p): n for p, n in (impl_out["before"] if k == 0 else impl_out["rounds"][k - 1]["post"])}
+            after = {tuple(p): n for p, n in rd["post"]}
+
+            def culprit(path):
+                """(kind, index) of the last successful operation of this isolation acting on the path or one of
+                its ancestors (by the paths its arguments DENOTED when it ran)"""
+                best = ("none", hi)
+                for i in range(lo, hi):
+                    op, r, den = case["ops"][i], impl_out["res"][i], impl_out["args"][i]
+                    if r == "ok" and "chdir" not in op and den and any(tuple(q) == path[:len(q)] for q in den):
+                        best = (op_kind(op), i)
+                return best
+
+            def sig_of(cls, path):
+                via, idx = culprit(path)
+                sig = {"class": cls, "via": via}
+                if any(c < idx for c in chdirs):
+                    sig["after_chdir"] = True
+                if k > 0:
+                    sig["isolation"] = "later"
+                return sig
+
+            for p, n in before.items():
+                if p not in after:
+                    cls = "preexisting-deleted"
+                elif after[p] != n:
+                    cls = "preexisting-modified"
+                else:
+                    continue
+                sig = sig_of(cls, p)
                 if jdump(sig) not in seen:
                     seen.add(jdump(sig))
-                    fails.append(Failure(sig, f"created-left-behind: {'/'.join(p)} did not exist before the isolated "
-                                              f"execution and still exists afterwards (via {sig['via']})"))
+                    fails.append(Failure(sig, f"{cls}: {'/'.join(p) or '<root>'} was {jdump(n)} before isolation "
+                                              f"#{k + 1} of the case and is {jdump(after.get(p))} after its exit "
+                                              f"(via {sig['via']})"))
+            for p in after:
+                if p not in before:
+                    sig = sig_of("created-left-behind", p)
+                    if jdump(sig) not in seen:
+                        seen.add(jdump(sig))
+                        fails.append(Failure(sig, f"created-left-behind: {'/'.join(p)} did not exist before isolation "
+                                                  f"#{k + 1} of the case and still exists after its exit "
+                                                  f"(via {sig['via']})"))
         if impl_out["escaped"]:
             fails.append(Failure({"class": "recorded-outside-sandbox"},
                                  f"paths outside the sandbox were recorded for deletion: {impl_out['escaped'][:3]}"))
@@ -649,32 +888,52 @@ class C29(PropertyCheck):
         before = {tuple(p) for p, _ in impl_out["before"]}
         key = []
         spell = case.get("spell") or [{}] * len(case["ops"])
-        for op, r, sp in zip(case["ops"], impl_out["res"], spell):
-            pre = [tuple(q) in before for q in op_paths(op)]
-            kinds = sorted(set(spelling_kinds(sp.get("sp"), sp.get("rel")) + spelling_kinds(sp.get("sq"), False)))
+        used = {}             # relative string -> working directories it was used in
+        cwd = []
+        for op, r, sp, den, after in zip(case["ops"], impl_out["res"], spell, impl_out["args"], impl_out["cwds"]):
+            sp = sp or {}
+            rel = bool(sp.get("rel"))
+            relq = bool(sp.get("relq", rel))
+            pre = [tuple(q) in before for q in (den or [])]
+            kinds = sorted(set(spelling_kinds(sp.get("sp"), rel) + spelling_kinds(sp.get("sq"), relq)))
             key.append([op_kind(op), r, pre, kinds])
             self.count(f"op:{next(iter(op))}:{r}")
             for kd in kinds:
                 self.count(f"spelling:{kd}:{r}")
             if any(pre):
                 self.count(f"names-preexisting:{r}")
+            if r != "outside" and "reenter" not in op:
+                (_, v), = op.items()
+                for f, sf, rl in (("p", "sp", rel), ("q", "sq", relq)):
+                    if f in v and rl:
+                        used.setdefault(spelled("", v[f], sp.get(sf), True, bool(sp.get("bare"))), set()).add(jdump(cwd))
+            cwd = after
+        if any(len(c) > 1 for c in used.values()):
+            self.count("shape:same-relative-string-under-several-working-directories")
+        self.count(f"shape:isolations-per-case:{min(len(impl_out['rounds']), 4)}")
         # name relations between what was recorded and what existed before (the isolation must tell them apart)
-        rel = set()
-        for c in impl_out["created"]:
-            cs = "/" + "/".join(c)
-            for b in before:
-                bs = "/" + "/".join(b)
-                if b and tuple(c) != b[:len(c)] and bs.startswith(cs):
-                    rel.add("recorded-name-is-string-prefix-of-preexisting")
-                if b and tuple(c) != b and len(c) == len(b) and cs.lower() == bs.lower():
-                    rel.add("recorded-name-differs-in-case-from-preexisting")
-        for x in rel:
+        rel_ = set()
+        n_iso = n_iso_true = 0
+        for rd in impl_out["rounds"]:
+            for c in rd["created"]:
+                cs = "/" + "/".join(c)
+                for b in before:
+                    bs = "/" + "/".join(b)
+                    if b and tuple(c) != b[:len(c)] and bs.startswith(cs):
+                        rel_.add("recorded-name-is-string-prefix-of-preexisting")
+                    if b and tuple(c) != b and len(c) == len(b) and cs.lower() == bs.lower():
+                        rel_.add("recorded-name-differs-in-case-from-preexisting")
+            if rd.get("iso") and rd["iso"] != "absent":
+                n_iso += len(rd["iso"])
+                n_iso_true += sum(1 for x in rd["iso"] if x)
+        for x in rel_:
             self.count(f"shape:{x}")
-        if impl_out.get("iso") and impl_out["iso"] != "absent":
-            self.count("probes:is_isolated", len(impl_out["iso"]))
-            self.count("probes:is_isolated-true", sum(1 for x in impl_out["iso"] if x))
+        if n_iso:
+            self.count("probes:is_isolated", n_iso)
+            self.count("probes:is_isolated-true", n_iso_true)
+        self.count("probes:abspath", sum(len(a) for a in impl_out["abs"] if a))
         self.count(f"kind:len{min(len(case['ops']) // 4 * 4, 12)}")
-        if not any(r == "ok" for r in impl_out["res"]):
+        if not any(r == "ok" and "reenter" not in op for op, r in zip(case["ops"], impl_out["res"])):
             return None
         return jdump(key)
 
